@@ -277,5 +277,13 @@ func docNamesDestination(doc, name string) bool {
 			return true
 		}
 	}
+	// a sentence that names the parameter and speaks of a destination / of overwriting:
+	// "with a caller supplied destination ... result must have the same length as points; its
+	// previous content is ignored and entirely overwritten"
+	if regexp.MustCompile(`(?i)\b` + n + `\b`).MatchString(doc) &&
+		regexp.MustCompile(`(?i)\b(destination|overwritten|output (buffer|slice|vector)|receives the result)\b`).MatchString(doc) &&
+		regexp.MustCompile(`(?i)^(dst|dest|res|result|results|out|output|buf|buffer|table|target|into)\d*$`).MatchString(name) {
+		return true
+	}
 	return false
 }
